@@ -928,8 +928,10 @@ fn apply_lookup(
         //
         // It should be possible to construct tests for both of these cases.
 
-        end = (end as isize + delta) as _;
-        if end < match_positions[idx] {
+        // `end + delta` may be negative when the recursed lookup removed more glyphs
+        // than precede `end`; compare signed, as HarfBuzz does.
+        let new_end = end as isize + delta;
+        if new_end < match_positions[idx] as isize {
             // End might end up being smaller than match_positions[idx] if the recursed
             // lookup ended up removing many items.
             // Just never rewind end beyond start of current position, since that is
@@ -938,8 +940,10 @@ fn apply_lookup(
             // https://bugs.chromium.org/p/chromium/issues/detail?id=659496
             // https://github.com/harfbuzz/harfbuzz/issues/1611
             //
-            delta += match_positions[idx] as isize - end as isize;
+            delta += match_positions[idx] as isize - new_end;
             end = match_positions[idx];
+        } else {
+            end = new_end as usize;
         }
 
         // next now is the position after the recursed lookup.
